@@ -54,6 +54,54 @@ def gen_hilbert_output(r, ncpu=None, levelmin=None, levelmax=None, max_octs=120,
     return out, mode
 
 
+def gen_deep_hilbert(r):
+    """A deep zoom (levelmax 19-22, beyond the 2^18 sampling of `hilbert_cpu_list`): complete down to levelmin 3, then one
+    chain of refined cells hugging a face of a level-2 search cube from one side; 8 or 64 equal key ranges (exact doubles).
+    The interval on the hugging axis ends between the last level-18 centre and the face: only cells of level >= 19 qualify
+    on that side."""
+    levelmax = r.choice([19, 20, 21, 22])
+    levelmin = 3
+    ncpu = r.choice([8, 64])
+    tot = 8 ** (levelmax + 1)
+    # keys this large do not survive the 16 significant digits of the info file: the domain decomposition *is* what the file
+    # says (the keys as osyris parses them), ownership follows those
+    bk = [int(Fraction(float(ramses.fmt_e(tot * c // ncpu)))) for c in range(ncpu + 1)]
+    bk[0], bk[-1] = 0, max(bk[-1], tot)
+    assert all(a < b for a, b in zip(bk, bk[1:]))
+    ax = r.randrange(3)
+    face = Fraction(r.choice([1, 2, 3]), 4)
+    side = r.choice([-1, -1, 1])
+    target = [Fraction(r.choice([3, 5, 7, 9, 11, 13]), 16) + Fraction(1, 2 ** 12) for _ in range(3)]
+    target[ax] = face + side * Fraction(1, 2 ** 40)
+
+    def pick(o):
+        h = Fraction(1, 2 ** (o["level"] - 1)) / 2
+        if any(abs(target[k] - o["centre"][k]) > h for k in range(3)):
+            return None
+        return sum((1 << k) for k in range(3) if target[k] > o["centre"][k])
+
+    def owner(o):
+        return hilbert_ref.owner_of_centre(o["centre"], levelmax, bk)
+
+    out = ramses.gen_output(r, ndim=3, ncpu=ncpu, levelmin=levelmin, levelmax=levelmax, nboundary=0, exact=True, owner_fn=owner,
+                            max_octs=10 ** 6, with_part=False, with_sink=False, with_grav=False, with_rt=False, chain=True,
+                            chain_pick=pick, hydro_vars=["density", "pressure"])
+    out["bound_keys"] = [Fraction(b) for b in bk]
+    out["ordering"] = "hilbert"
+    box = out["boxlen"] * out["unit_l"]
+    w = Fraction(1, 2 ** r.choice([8, 10, 12]))
+    delta = Fraction(3, 2 ** 21)          # between the level-19 centre (2^-20 from the face) and the level-18 centre (2^-19)
+    preds = []
+    for k in range(3):
+        if k == ax:
+            lo, hi = (face - delta, face + w) if side < 0 else (face - w, face + delta)
+        else:
+            lo, hi = target[k] - w, target[k] + w
+        preds.append({"var": "position_" + "xyz"[k], "op": "gt", "value": lo * box})
+        preds.append({"var": "position_" + "xyz"[k], "op": "lt", "value": hi * box})
+    return out, preds, f"deep{levelmax}:{'below' if side < 0 else 'above'}_face"
+
+
 def gen_box(r, out):
     lm = out["levelmax"]
     box = out["boxlen"] * out["unit_l"]
@@ -239,12 +287,17 @@ def run(ctx):
             break
         if i % 10 == 9:
             out["ordering"] = "bisection"
-        preds, kind = gen_box(r, out)
-        if targeted:
+        deep = (i % 10 == 4) or (i >= n and i % 4 == 1)
+        if deep:
+            out, preds, kind = gen_deep_hilbert(r)
+            mode = "equal"
+        else:
+            preds, kind = gen_box(r, out)
+        if targeted and not deep:
             while kind != "offcentre":
                 preds, kind = gen_box(r, out)
         req = {"preds": preds}
-        if i % 8 == 7 and not targeted:
+        if i % 8 == 7 and not targeted and not deep:
             req = {"cpu_list": sorted(r.sample(range(1, out["ncpu"] + 1), r.randint(1, out["ncpu"])))}
             kind = "explicit_cpu_list"
         k = f"{kind}:{mode}:ncpu{out['ncpu']}"
